@@ -589,7 +589,10 @@ def regen_registry() -> list[str]:
     changed = []
     lean = core.LEAN_DIR
     mods = []
-    for sub in ("Gen", "Model", "Lemmas", "Props", "Drv"):
+    # the root module only imports the regenerated units: models, lemmas and theorems are built per
+    # property (`lake build Aiortc.Props.Cnn drv_Cnn`), so helper lemmas of different properties never
+    # have to coexist in one environment
+    for sub in ("Gen",):
         d = os.path.join(lean, "Aiortc", sub)
         for root, _dirs, fs in os.walk(d):
             for f in sorted(fs):
